@@ -13,6 +13,7 @@ import (
 	"sort"
 	"strings"
 	"sync"
+	"sync/atomic"
 	"syscall"
 
 	"verif/gqlref"
@@ -61,11 +62,12 @@ type Fault struct {
 
 // Fakes is the in-memory transport standing for all services of a world.
 type Fakes struct {
-	W     *World
-	Cnt   []Counters
-	Reqs  []*SubReq
-	Calls []HTTPCall
-	Other []string // requests to non-services, undecodable bodies, ...
+	W          *World
+	Cnt        []Counters
+	openBodies int64
+	Reqs       []*SubReq
+	Calls      []HTTPCall
+	Other      []string // requests to non-services, undecodable bodies, ...
 	// FaultFor decides whether HTTP call number `call` (0-based, in arrival order) is faulted.
 	FaultFor func(call int, svc int, n int) *Fault
 	// Values collects every scalar leaf a service put into an answer (taint oracle).
@@ -96,6 +98,7 @@ func NewFakes(w *World) *Fakes {
 func (f *Fakes) Reset() {
 	f.Reqs, f.Calls, f.Other = nil, nil, nil
 	f.FaultsApplied = 0
+	atomic.StoreInt64(&f.openBodies, 0)
 	for _, c := range f.Cnt {
 		for k := range c {
 			delete(c, k)
@@ -125,7 +128,35 @@ func httpResp(code int, body []byte) *http.Response {
 	return &http.Response{StatusCode: code, Body: io.NopCloser(bytes.NewReader(body)), Header: http.Header{"Content-Type": []string{"application/json"}}}
 }
 
+// trackedBody counts the response bodies that were handed out and never closed: for a real
+// transport an unclosed body keeps its connection occupied for good.
+type trackedBody struct {
+	io.ReadCloser
+	f      *Fakes
+	closed bool
+}
+
+func (b *trackedBody) Close() error {
+	if !b.closed {
+		b.closed = true
+		atomic.AddInt64(&b.f.openBodies, -1)
+	}
+	return b.ReadCloser.Close()
+}
+
+// OpenBodies is the number of response bodies handed out since the last Reset and not closed yet.
+func (f *Fakes) OpenBodies() int { return int(atomic.LoadInt64(&f.openBodies)) }
+
 func (f *Fakes) RoundTrip(r *http.Request) (*http.Response, error) {
+	resp, err := f.roundTrip(r)
+	if resp != nil && resp.Body != nil {
+		atomic.AddInt64(&f.openBodies, 1)
+		resp.Body = &trackedBody{ReadCloser: resp.Body, f: f}
+	}
+	return resp, err
+}
+
+func (f *Fakes) roundTrip(r *http.Request) (*http.Response, error) {
 	if f.Hook != nil {
 		f.Hook(r.URL.String())
 	}
